@@ -592,12 +592,14 @@ package process
 //@ macro fdefListed(fd FunctionDefinition, ts []types.SessionType) bool = inList(ts, fd.Type) && (forall i int :: 0 <= i && i < len(fd.Parameters) ==> inList(ts, fd.Parameters[i].Type))
 //@ macro fdefReady(fd FunctionDefinition, D Set[string], V Arr[string]types.LabelledType) bool = ready(fd.Type, D, V) && paramsReady(fd.Parameters, D, V)
 //@ contract preliminaryFunctionDefinitionsChecks
+//@   heapwf
 //@   requires[C09] genvShape(globalEnv) && readyEnv(envD(globalEnv), envV(globalEnv))
 //@   ensures[C09] C09.prelimFuncs: result == nil ==> fdefsReady(deref(globalEnv.FunctionDefinitions), envD(globalEnv), envV(globalEnv))
-//@   ensures[C09] C09.prelimFuncsKept: modesKept() && argsFrame()
+//@   ensures[C09] C09.prelimFuncsKept: modesKept()
 //@   loop[C09] 1 invariant modesKept() && unique != nil && listShape(typesToCheck)
 //@   loop[C09] 1 invariant forall j int :: 0 <= j && j <= idx ==> fdefListed(deref(globalEnv.FunctionDefinitions)[j], typesToCheck) && fdefReady(deref(globalEnv.FunctionDefinitions)[j], envD(globalEnv), envV(globalEnv))
-//@   loop[C09] 2 invariant modesKept() && unique != nil && listShape(typesToCheck)
+//@   loop[C09] 2 invariant modesKept() && unique != nil
+//@   loop[C09] 2 invariant listShape(typesToCheck)
 //@   loop[C09] 2 invariant forall j int :: 0 <= j && j <= idx1 ==> fdefListed(deref(globalEnv.FunctionDefinitions)[j], typesToCheck) && fdefReady(deref(globalEnv.FunctionDefinitions)[j], envD(globalEnv), envV(globalEnv))
 //@   loop[C09] 2 invariant f.Type == deref(globalEnv.FunctionDefinitions)[idx1+1].Type && f.Parameters == deref(globalEnv.FunctionDefinitions)[idx1+1].Parameters && f.Type != nil && inList(typesToCheck, f.Type)
 //@   loop[C09] 2 invariant forall i int :: 0 <= i && i <= idx ==> f.Parameters[i].Type != nil && inList(typesToCheck, f.Parameters[i].Type)
@@ -610,9 +612,10 @@ package process
 //@ macro namesReady(ns []Name, D Set[string], V Arr[string]types.LabelledType) bool = forall k int :: 0 <= k && k < len(ns) ==> ready(ns[k].Type, D, V)
 //@ macro procsReady(ps []*Process, D Set[string], V Arr[string]types.LabelledType) bool = forall k int :: 0 <= k && k < len(ps) ==> ready(ps[k].Type, D, V)
 //@ contract preliminaryProcessesChecks
+//@   heapwf
 //@   requires[C09] genvShape(globalEnv) && readyEnv(envD(globalEnv), envV(globalEnv)) && procsShape(processes) && namesShape(assumedFreeNames)
 //@   ensures[C09] C09.prelimProcs: result == nil ==> procsReady(processes, envD(globalEnv), envV(globalEnv)) && namesReady(assumedFreeNames, envD(globalEnv), envV(globalEnv))
-//@   ensures[C09] C09.prelimProcsKept: modesKept() && argsFrame()
+//@   ensures[C09] C09.prelimProcsKept: modesKept()
 //@   loop[C09] 1 invariant remainingAssumedFreeNames != nil && listShape(typesToCheck)
 //@   loop[C09] 1 invariant forall k int :: 0 <= k && k <= idx ==> assumedFreeNames[k].Type != nil && inList(typesToCheck, assumedFreeNames[k].Type)
 //@   loop[C09] 2 invariant modesKept() && remainingAssumedFreeNames != nil && listShape(typesToCheck) && labelledTypesEnv != nil && dom(labelledTypesEnv) == envD(globalEnv) && vals(labelledTypesEnv) == envV(globalEnv)
@@ -641,7 +644,7 @@ package process
 
 //@ contract typecheckProcesses
 //@   requires[C09] genvShape(globalEnv) && readyEnv(envD(globalEnv), envV(globalEnv)) && fdefsReady(deref(globalEnv.FunctionDefinitions), envD(globalEnv), envV(globalEnv))
-//@   requires[C09] procsShape(processes) && procsReady(processes, envD(globalEnv), envV(globalEnv)) && namesReady(assumedFreeNames, envD(globalEnv), envV(globalEnv))
+//@   requires[C09] procsShape(processes) && namesShape(assumedFreeNames) && procsReady(processes, envD(globalEnv), envV(globalEnv)) && namesReady(assumedFreeNames, envD(globalEnv), envV(globalEnv))
 //@   ensures[C09] C09.tpKept: modesKept() && argsFrame()
 //@   loop[C09] 1 invariant modesKept() && argsFrame()
 //@   loop[C09] 1 invariant readyEnv(dom(labelledTypesEnv), vals(labelledTypesEnv)) && sigmaReady(functionDefinitionsEnv, dom(labelledTypesEnv), vals(labelledTypesEnv))
